@@ -850,9 +850,99 @@ fn queries(recs: &[R], base: u64, rng: &mut Rng) -> Vec<u64> {
     qs
 }
 
+/// exhaustive small domains: (1) every list of up to 2 (quick) / 3 (thorough) INLINE ranges over
+/// depth {0,1} x start {4,6,8} x size {0,2,4} inside `FUNC 4 8`, queried at every address 3..=13 —
+/// all duplicate / nested / touching constellations of the `(depth, address)` binary search;
+/// (2) every choice of up to 2 FUNCs from 5 and up to 2 PUBLICs from 7 addresses, queried at 0..=11 —
+/// all constellations of the PUBLIC fallback and the previous-FUNC cut-off.
+fn exhaustive(tier: Tier, emit: &mut dyn FnMut(String)) {
+    let bases = [0u64, u64::MAX - 13];
+    let mut cands: Vec<(u32, u64, u32)> = vec![];
+    for d in 0..2u32 {
+        for a in [4u64, 6, 8] {
+            for s in [0u32, 2, 4] {
+                cands.push((d, a, s));
+            }
+        }
+    }
+    let maxlen = if tier == Tier::Quick { 2 } else { 3 };
+    let mut stack: Vec<Vec<usize>> = vec![vec![]];
+    let mut k = 0usize;
+    while let Some(cur) = stack.pop() {
+        if !cur.is_empty() {
+            let base = bases[k % 2];
+            k += 1;
+            let mut recs = vec![
+                R::File(1, "a".into()),
+                R::Origin(1, "o1".into()),
+                R::Origin(2, "o2".into()),
+                R::Origin(3, "o3".into()),
+                R::Func(4, 8, 0, "f".into()),
+                R::Line(4, 4, 7, 1),
+                R::Line(8, 4, 9, 1),
+            ];
+            for (j, &i) in cur.iter().enumerate() {
+                let (d, a, sz) = cands[i];
+                recs.push(R::Inline(d, 10 + j as u32, 1, 1 + j as u32, vec![(a, sz)]));
+            }
+            let qs: Vec<u64> = (3..=13u64).map(|a| base + a).collect();
+            emit(render_case(base, 64, &qs, &recs));
+        }
+        if cur.len() < maxlen {
+            for i in 0..cands.len() {
+                let mut n = cur.clone();
+                n.push(i);
+                stack.push(n);
+            }
+        }
+    }
+    let funcs: [(u64, u32); 5] = [(2, 2), (4, 2), (4, 4), (8, 1), (6, 0)];
+    let paddrs: [u64; 7] = [1, 2, 3, 4, 6, 8, 9];
+    let mut fsets: Vec<Vec<usize>> = vec![vec![]];
+    for i in 0..funcs.len() {
+        fsets.push(vec![i]);
+        for j in 0..funcs.len() {
+            if i != j {
+                fsets.push(vec![i, j]);
+            }
+        }
+    }
+    let mut psets: Vec<Vec<usize>> = vec![];
+    for i in 0..paddrs.len() {
+        psets.push(vec![i]);
+        for j in i..paddrs.len() {
+            psets.push(vec![i, j]);
+        }
+    }
+    for (n, fs) in fsets.iter().enumerate() {
+        for (m, ps) in psets.iter().enumerate() {
+            let base = bases[(n + m) % 2];
+            let mut recs = vec![];
+            // PUBLICs before, between and after the FUNCs in the file (position must not matter)
+            for (t, &i) in ps.iter().enumerate() {
+                if t == 0 {
+                    recs.push(R::Pub(paddrs[i], t as u32, format!("p{t}")));
+                }
+            }
+            for (t, &i) in fs.iter().enumerate() {
+                recs.push(R::Func(funcs[i].0, funcs[i].1, 0, format!("f{t}")));
+                if t == 0 && ps.len() > 1 {
+                    recs.push(R::Pub(paddrs[ps[1]], 1, "p1".into()));
+                }
+            }
+            if fs.is_empty() && ps.len() > 1 {
+                recs.push(R::Pub(paddrs[ps[1]], 1, "p1".into()));
+            }
+            let qs: Vec<u64> = (0..=11u64).map(|a| base + a).collect();
+            emit(render_case(base, 64, &qs, &recs));
+        }
+    }
+}
+
 fn generate_inner(tier: Tier, rng: &mut Rng, emit: &mut dyn FnMut(String)) {
+    exhaustive(tier, emit);
     {
-        let n = if tier == Tier::Quick { 3000 } else { 60000 };
+        let n = if tier == Tier::Quick { 12000 } else { 150000 };
         for k in 0..n {
             let clean = k % 2 == 0;
             let base: u64 = match rng.below(5) {
@@ -968,7 +1058,7 @@ impl Engine for Symb {
         "case = (symbol records, module base, module size, instruction addresses). Files: 0..4 FUNCs with line tables (gaps, zero-size, duplicate/overlapping lines), INLINE records nested to depth 8 with multi-range records, zero-size/duplicate/overlapping/depth-gap inlinees, INLINE_ORIGIN before/inside/after FUNC blocks or missing, PUBLICs before/at/inside/after FUNCs incl. equal addresses, duplicate FILE ids, STACK WIN 4/0 parameter sizes; half of the files non-overlapping (linear-scan oracle applies), half with overlapping/duplicate FUNCs. Regions: low addresses, around 2^32, top of the u64 space. Bases {0, 0x1000, 2^32, 2^64-1-k}. Addresses: start-1, start, end-1, end of every record + base-1, base, one random. non-trivial = at least one address resolved to a function; distinct = distinct case line".into()
     }
     fn exhaustive_part(&self) -> Option<String> {
-        None
+        Some("all lists of <= 2 (quick) / <= 3 (thorough) INLINE ranges over depth {0,1} x start {4,6,8} x size {0,2,4} inside FUNC 4 8, every address 3..=13; all choices of <= 2 FUNCs (from 5) and <= 2 PUBLICs (from 7 addresses), every address 0..=11; bases 0 and 2^64-14".into())
     }
 
     fn generate(&self, tier: Tier, rng: &mut Rng, emit: &mut dyn FnMut(String)) {
